@@ -90,28 +90,38 @@ def model_and_impl(ctx, tag, grams, modes, emit="core", ast="opt", dev="", with_
         return [(j["_rec"], j, None, gtext[j["g"]]) for j in jobs], corpus
     for g, c in zip(grams, corpus):
         g["rules"] = c["rule_names"] if not g.get("entries") else g["entries"]
-    pkg = famgen.gen_family(famname or tag, grams, with_pest=with_pest)
-    binp, errs = famgen.build_family(pkg, profile)
+    shards = famgen.gen_family(famname or tag, grams, with_pest=with_pest)
+    binp, errs = famgen.build_family(shards, profile)
     if binp is None:
         for gid, msg in errs.items():
             ctx.violation("generated code for pest-valid grammar %s does not compile" % gid,
                           {"kind": "compile", "grammar": gtext[gid]["text"], "opts": gtext[gid].get("opts"), "rustc": msg})
         grams2 = [g for g in grams if g["id"] not in errs]
-        pkg = famgen.gen_family(famname or tag, grams2, with_pest=with_pest)
-        binp, errs2 = famgen.build_family(pkg, profile)
+        shards = famgen.gen_family(famname or tag, grams2, with_pest=with_pest)
+        binp, errs2 = famgen.build_family(shards, profile)
         if binp is None:
             raise ToolError("harness still fails to build after removing %s" % list(errs))
         jobs = [j for j in jobs if j["g"] not in errs]
         for i, j in enumerate(jobs):
             j["idx"] = i
     send = [{k: v for k, v in j.items() if k != "_rec"} for j in jobs]
-    res = peg.run_runner(binp, send)
+    res = run_sharded(binp, shards, send)
+    ctx.last_shards = shards
     out = []
     for j in jobs:
         out.append((j["_rec"], j, res.get(j["idx"], {"missing": True}), gtext[j["g"]]))
     ctx.cov["evaluations"] += len(out)
     ctx.cov["traces_validated_against_impl"] += len(out)
     return out, corpus
+
+
+def run_sharded(bins, shards, send):
+    res = {}
+    for pkg, gids in shards:
+        part = [j for j in send if j["g"] in gids]
+        if part:
+            res.update(peg.run_runner(bins[pkg], part))
+    return res
 
 
 def replay_of(rec, job, obs, gram, field, exp, got):
@@ -436,6 +446,56 @@ def report_equal(rec, obs):
     return ppt["trk"]["pos"] == rec["trk"]["pos"] and sorted(m, key=key) == sorted(o, key=key)
 
 
+def cmp_c05(rec, job, obs, gram):
+    """failed attempts leave no trace: verdict, offset and final stack as the immutable-stack denotation says (parse and check paths)"""
+    d = []
+    for form in forms_of(obs)[:1]:
+        pp, cp, ppt, cpt = (typed_form(obs, form, k) for k in ("pp", "cp", "ppt", "cpt"))
+        for nm, o in (("pp", pp), ("cp", cp), ("ppt", ppt), ("cpt", cpt)):
+            if is_bad(o):
+                d.append(("%s.%s" % (form, nm), "a result", o))
+        if d:
+            return d
+        for nm, o in (("parse_partial", pp), ("check_partial", cp)):
+            if o["ok"] != rec["ok"]:
+                d.append(("%s.%s.ok" % (form, nm), rec["ok"], o["ok"]))
+            elif rec["ok"] and o["end"] != rec["end"]:
+                d.append(("%s.%s.end" % (form, nm), rec["end"], o["end"]))
+        if not d and rec["ok"]:
+            for nm, o in (("parse", ppt), ("check", cpt)):
+                if o.get("stk") != rec["stk"]:
+                    d.append(("%s.stack after %s" % (form, nm), rec["stk"], o.get("stk")))
+    return d
+
+
+def cmp_c06(rec, job, obs, gram):
+    """stack operations as pest specifies, graceful failure"""
+    d = walk_bad(obs.get("t"), "t")
+    if d:
+        return d
+    return cmp_c05(rec, job, obs, gram)
+
+
+def cmp_c07(rec, job, obs, gram):
+    """implicit skipping / atomicity: verdict, offset, token spans (parse), verdict / offset (check)"""
+    d = []
+    for form in forms_of(obs)[:1]:
+        pp, cp = typed_form(obs, form, "pp"), typed_form(obs, form, "cp")
+        for nm, o in (("pp", pp), ("cp", cp)):
+            if is_bad(o):
+                d.append(("%s.%s" % (form, nm), "a result", o))
+        if d:
+            return d
+        for nm, o in (("parse_partial", pp), ("check_partial", cp)):
+            if o["ok"] != rec["ok"]:
+                d.append(("%s.%s.ok" % (form, nm), rec["ok"], o["ok"]))
+            elif rec["ok"] and o["end"] != rec["end"]:
+                d.append(("%s.%s.end" % (form, nm), rec["end"], o["end"]))
+        if not d and rec["ok"] and pp["toks"] != rec["ptoks"]:
+            d.append((form + ".tokens", rec["ptoks"], pp["toks"]))
+    return d
+
+
 def grams_for(prop, tier, seed):
     q = tier == "quick"
     F = families
@@ -448,8 +508,7 @@ def grams_for(prop, tier, seed):
         g += F.fam_utf8(tier)
         k = F.fam_kinds(tier)
         g += k[::9] if q else k[::2]
-        if prop == "C02":
-            g += F.fam_dyck_inputs(tier)
+        g += F.fam_dyck_inputs(tier)
         return g
     if prop == "C03":
         g = F.fam_ops(tier)
@@ -494,6 +553,20 @@ def grams_for(prop, tier, seed):
         ops = F.fam_ops(tier)
         g += ops[::5] if q else ops[::2]
         return g
+    if prop == "C05":
+        st = F.fam_stack(tier)
+        g = st[::2] if q else st
+        g += F.fam_rand(tier, seed, 14 if q else 80, "stack")
+        return g
+    if prop == "C06":
+        g = F.fam_slices(tier)
+        return g
+    if prop == "C07":
+        g = F.fam_kinds(tier)
+        g += F.fam_rand(tier, seed, 10 if q else 60, "ws")
+        ops = [x for x in F.fam_ops(tier) if x["id"].startswith("ow")]
+        g += ops[::3] if q else ops
+        return g
     raise KeyError(prop)
 
 
@@ -512,7 +585,7 @@ def check_C02(tier, seed):
     ctx = Ctx("C02", tier, seed)
     grams = grams_for("C02", tier, seed)
     ctx.notes["grammars"] = len(grams)
-    run_generic(ctx, "c02", grams, "sP", cmp_c02)
+    run_generic(ctx, "c02", grams, "sP", cmp_c02, famname="c01")
     return ctx.finish(rule=RULE_A + "Decisive: the token tree of self_or_children() (rule, start, end, depth in pre-order) against Prune(Tokens) of the model; Tokens itself is validated against pest's Pairs on every behaviour where pest is defined.")
 
 
@@ -564,11 +637,11 @@ def check_C09(tier, seed):
     # second build profile: no debug assertions / overflow checks => the get_unchecked paths
     profiles = ["nodbg"] + (["release"] if tier == "thorough" else [])
     for prof in profiles:
-        binp, errs = famgen.build_family("fam_c09", prof)
+        binp, errs = famgen.build_family(ctx.last_shards, prof)
         if binp is None:
             raise ToolError("profile %s build failed: %s" % (prof, errs))
         send = [{k: v for k, v in j.items() if k != "_rec"} for _, j, _, _ in rows]
-        res = peg.run_runner(binp, send)
+        res = run_sharded(binp, ctx.last_shards, send)
         ndiff = 0
         for rec, job, obs, gram in rows:
             o2 = res.get(job["idx"], {"missing": True})
@@ -595,4 +668,89 @@ def check_C10(tier, seed):
     return ctx.finish(rule=RULE_A + "Decisive (rejected inputs, partial and full entry points, three input forms): location in range on a boundary and not before the matched prefix; every rule listed as expected has a failed invocation at the location in the model's invocation log, every rule listed as unexpected a successful one (M9 checks the same of the model's own tracker); Display does not panic; two runs give the same report.")
 
 
-CHECKS = {"C01": check_C01, "C02": check_C02, "C03": check_C03, "C04": check_C04, "C08": check_C08, "C09": check_C09, "C10": check_C10}
+FAMNAME = {"C02": "c01"}
+COMPARE = {"C01": (cmp_c01, "sP", True, "core"), "C02": (cmp_c02, "sP", True, "core"), "C03": (cmp_c03, "spn", False, "core"),
+           "C04": (cmp_c04, "spn", False, "core"), "C08": (cmp_c08, "spn", False, "core"), "C09": (cmp_c09, "spn", False, "core"),
+           "C10": (cmp_c10, "spn", False, "all")}
+
+
+def setup():
+    COMPARE.update(COMPARE_EXTRA)
+    return setup2()
+
+
+def setup2():
+    """Build the tools and warm the harness crates of every claimed check (quick tier corpus)."""
+    t0 = time.time()
+    peg.ensure_pest2json()
+    for prop in sorted(COMPARE):
+        cmpf, modes, with_pest, emit = COMPARE[prop]
+        grams = grams_for(prop, "quick", int(os.environ.get("VERIF_SEED", "1")))
+        path, corpus = peg.make_corpus(grams, prop.lower())
+        for g, c in zip(grams, corpus):
+            g["rules"] = c["rule_names"] if not g.get("entries") else g["entries"]
+        shards = famgen.gen_family(FAMNAME.get(prop, prop.lower()), grams, with_pest=with_pest)
+        binp, errs = famgen.build_family(shards)
+        print("setup: %s %d shards (%d grammars) %s  [%.0fs]" % (prop, len(shards), len(grams), "ok" if binp else "COMPILE ERRORS in %s" % sorted(errs), time.time() - t0))
+        if prop == "C09":
+            famgen.build_family(shards, "nodbg")
+    for fn in EXTRA_SETUP:
+        fn()
+    print("setup done in %.0fs" % (time.time() - t0))
+    return 0
+
+
+EXTRA_SETUP = []
+
+
+def replay(prop, path):
+    COMPARE.update(COMPARE_EXTRA)
+    r = json.load(open(path))
+    prop = prop or r.get("property")
+    if r.get("kind") != "behaviour" or prop not in COMPARE:
+        print(json.dumps(r, indent=1, ensure_ascii=False)[:6000])
+        print("replay: this record is descriptive (kind=%s); re-run ./check %s to re-evaluate" % (r.get("kind"), prop))
+        return 0
+    cmpf, modes, with_pest, emit = COMPARE[prop]
+    ctx = Ctx(prop + "_replay", "quick", 0)
+    g = dict(id=r.get("grammar_id", "g0"), text=r["grammar"], alphabet=[], maxlen=0, inputs=[r["input_cps"]],
+             ctxs=[[cps(r.get("pre", "")), cps(r.get("post", ""))]], opts=r.get("opts"), entries=[r["rule"]])
+    rows, _ = model_and_impl(ctx, "replay", [g], modes, emit=emit, with_pest=with_pest)
+    rc = 0
+    for rec, job, obs, gram in rows:
+        print("MODEL   :", json.dumps(rec, ensure_ascii=False)[:3000])
+        print("OBSERVED:", json.dumps(obs, ensure_ascii=False)[:3000])
+        d = cmpf(rec, job, obs, gram)
+        for f, e, o in d:
+            print("MISMATCH %s: expected %s observed %s" % (f, json.dumps(e)[:300], json.dumps(o)[:300]))
+            rc = 1
+    print("replay: %s" % ("still violates" if rc else "agrees with the model now"))
+    return rc
+
+
+def check_C05(tier, seed):
+    ctx = Ctx("C05", tier, seed)
+    grams = grams_for("C05", tier, seed)
+    ctx.notes["grammars"] = len(grams)
+    run_generic(ctx, "c05", grams, "sP", cmp_c05)
+    return ctx.finish(rule=RULE_A + "Family: {choice, two-armed choice, optional, repetition, &, &-failing, !, !-succeeding, nested optional, repetition over choice} x 9 stack effects (PUSH, POP, DROP, POP_ALL, push-push, pop-push, drop-push, nested optional POP, choice of DROP|PUSH) x failing continuation x 5 probe suffixes that make any leaked or lost entry change acceptance, under normal / atomic / compound / non-atomic rules, + seeded random stack grammars. Decisive: verdict, offset (parse and check path) and the final stack contents against the immutable-stack denotation (M1, M2).")
+
+
+def check_C06(tier, seed):
+    ctx = Ctx("C06", tier, seed)
+    grams = grams_for("C06", tier, seed)
+    ctx.notes["grammars"] = len(grams)
+    run_generic(ctx, "c06", grams, "sP", cmp_c06)
+    return ctx.finish(rule=RULE_A + "Family: psh{,4} ~ ';' ~ OP ~ EOI for OP in PEEK[a..b], PEEK[a..], PEEK[..b] (a, b in -3..3 quick / -6..6 thorough), PEEK, POP, DROP, PEEK_ALL, POP_ALL and combinations, in normal / atomic / compound / non-atomic rules; pushed words a, bb, 'c ' (with implicit skip inside PUSH); inputs = stack words followed by every sub-slice in both orders and single edits. Decisive: verdict, offset, final stack, no panic.")
+
+
+def check_C07(tier, seed):
+    ctx = Ctx("C07", tier, seed)
+    grams = grams_for("C07", tier, seed)
+    ctx.notes["grammars"] = len(grams)
+    run_generic(ctx, "c07", grams, "sP", cmp_c07)
+    return ctx.finish(rule=RULE_A + "Family: chains of rule kinds k1 -> k2 -> k3 (5^3, sampled in quick) around a sequence body and a repetition body x {no skip rule, WHITESPACE, COMMENT, both}; inputs = sentences with every combination of skippable text in each gap (also leading / trailing); + seeded random grammars with WHITESPACE / COMMENT of all five kinds. M6: a skip step only from a sequence / repetition(i>0) / trailing position and only in non-atomic context. Decisive: verdict, offset (parse and check path) and token spans.")
+
+
+COMPARE_EXTRA = {"C05": (cmp_c05, "sP", True, "core"), "C06": (cmp_c06, "sP", True, "core"), "C07": (cmp_c07, "sP", True, "core")}
+CHECKS = {"C05": check_C05, "C06": check_C06, "C07": check_C07, "C01": check_C01, "C02": check_C02, "C03": check_C03, "C04": check_C04, "C08": check_C08, "C09": check_C09, "C10": check_C10}
